@@ -7,8 +7,8 @@ import (
 	"github.com/theparanoids/ysshra/internal/verifharness/hx"
 )
 
-var windows = []string{"cur", "cur", "cur", "past", "future", "forever", "zero", "vamax", "vbmax", "edge", "lapse"}
-var kidKinds = []string{"ys", "ys", "ystouch", "ysff", "ysnonce", "nover", "incons", "deftouch", "missing", "free", "empty"}
+var windows = []string{"cur", "cur", "cur", "past", "future", "forever", "zero", "vamax", "vbmax", "edge", "lapse", "vb31", "vb32", "va32", "vb63", "vb63p", "va63", "cur", "past"}
+var kidKinds = []string{"ys", "ys", "ystouch", "ysff", "ysnonce", "nover", "incons", "deftouch", "missing", "free", "empty", "headless", "headless0", "headlessneg", "nonce0", "headless17", "touch4", "touch258", "ys"}
 var comments = []string{"", "c", "my key", "paranoids.regular-cert"}
 
 func genHist(g *hx.Gen, out *hx.Out) {
@@ -152,6 +152,11 @@ func genOne(g *hx.Gen, i int) []string {
 	// long passphrases that agree on a long prefix: nothing may compare only part of a passphrase
 	long := strings.Repeat("p", 64)
 	pass := []string{"pw", "", "other", "pw", long + "-tail-A", long + "-tail-B", long, "pw2"}
+	// … and passphrases whose length sits on a power of two or next to it
+	if g.Intn(3) == 0 {
+		n := []int{63, 65, 255, 256, 257, 1023, 1024, 1025, 4096, 65535, 65536}[g.Intn(11)]
+		pass = append(pass, strings.Repeat("q", n), strings.Repeat("q", n))
+	}
 	locked, lockPass := false, ""
 	for j := 0; j < nops; j++ {
 		var op string
@@ -198,6 +203,17 @@ func genOne(g *hx.Gen, i int) []string {
 			op = "uremove=" + blob()
 		case r < 26:
 			op = "uremoveall"
+		case r < 27:
+			// a raw request: code 200 and a body whose size sits on or next to a power of two
+			n := []int{0, 1, 2, 100, 254, 255, 256, 257, 507, 508, 509, 510, 511, 512, 513, 1023, 1024, 1025, 4095, 4096, 4097, 65535, 65536}[g.Intn(23)]
+			body := make([]byte, n)
+			for k := range body {
+				body[k] = byte(k*7 + n)
+			}
+			op = "forward=" + hx.Hex(append([]byte{200}, body...))
+			if g.Intn(4) == 0 {
+				op += "!" + g.Pick([]string{"fail:forward", "oversize:forward", "oversize2:forward", "oversize3:forward", "oversize4:forward", "close"})
+			}
 		default:
 			op = "list"
 		}
@@ -205,7 +221,7 @@ func genOne(g *hx.Gen, i int) []string {
 			ops = append(ops, "sleep=5")
 			slept = true
 		}
-		if g.Intn(9) == 0 && !strings.HasPrefix(op, "u") {
+		if g.Intn(9) == 0 && !strings.HasPrefix(op, "u") && !strings.Contains(op, "!") {
 			f := []string{"fail:list", "fail:remove", "fail:sign", "fail:add", "fail:removeall", "fail:lock", "fail:unlock", "fail:list+remove",
 				"garbage:list", "garbage:sign", "oversize:list", "close", "fail:remove"}[g.Intn(13)]
 			if g.Intn(40) == 0 && hx.Want("weird") && *hx.Only != "" {
